@@ -225,6 +225,51 @@ pub fn strategy() -> impl Strategy<Value = Case> {
     ]
 }
 
+/// one block of the small-alphabet enumeration (a pure function of the block number)
+fn alphabet_block(block: u64) -> BlockReport {
+    let mut rep = BlockReport::default();
+    let mut bufs: Vec<Vec<u8>> = vec![];
+    if block == 64 {
+        bufs.push(vec![]);
+        for a in ALPHA {
+            bufs.push(vec![a]);
+        }
+    } else {
+        let head = vec![ALPHA[(block / 8) as usize], ALPHA[(block % 8) as usize]];
+        bufs.push(head.clone());
+        let mut frontier = vec![head];
+        for _ in 0..4 {
+            let mut next = vec![];
+            for f in &frontier {
+                for a in ALPHA {
+                    let mut n = f.clone();
+                    n.push(a);
+                    next.push(n);
+                }
+            }
+            bufs.extend(next.iter().cloned());
+            frontier = next;
+        }
+    }
+    for buf in &bufs {
+        for size in 0..=7usize {
+            rep.evaluations += 1;
+            match check_field(buf, size) {
+                Ok(p) => rep.nontrivial += p.nontrivial as u64,
+                Err(v) => {
+                    if rep.violation.is_none() {
+                        rep.violation = Some((json!(Case::Field { buf: buf.clone(), size }), v));
+                    }
+                }
+            }
+        }
+    }
+    if block == 13 {
+        rep.sample = Some(json!({"buf": hex_short(&bufs[bufs.len() / 2]), "sizes": "0..=7"}));
+    }
+    rep
+}
+
 pub fn run(run: &Run) {
     run.rule(
         "exhaustive part: all byte strings of length 0..=6 over the alphabet {00,'a',C3,A9,E2,82,AC,FF} x declared sizes 0..=7 (2.4 M calls, fixed \
@@ -235,52 +280,18 @@ pub fn run(run: &Run) {
     );
     run.regressions(&replay);
     // exhaustive: 8^0 + ... + 8^6 strings x 8 sizes; block = first two symbols (64 blocks) for length >= 2, plus one block for shorter
-    run.enumerate("small-alphabet-exhaustive", 65, true, |block| {
-        let mut rep = BlockReport::default();
-        let mut bufs: Vec<Vec<u8>> = vec![];
-        if block == 64 {
-            bufs.push(vec![]);
-            for a in ALPHA {
-                bufs.push(vec![a]);
-            }
-        } else {
-            let head = vec![ALPHA[(block / 8) as usize], ALPHA[(block % 8) as usize]];
-            bufs.push(head.clone());
-            let mut frontier = vec![head];
-            for _ in 0..4 {
-                let mut next = vec![];
-                for f in &frontier {
-                    for a in ALPHA {
-                        let mut n = f.clone();
-                        n.push(a);
-                        next.push(n);
-                    }
-                }
-                bufs.extend(next.iter().cloned());
-                frontier = next;
-            }
-        }
-        for buf in &bufs {
-            for size in 0..=7usize {
-                rep.evaluations += 1;
-                match check_field(buf, size) {
-                    Ok(p) => rep.nontrivial += p.nontrivial as u64,
-                    Err(v) => {
-                        if rep.violation.is_none() {
-                            rep.violation = Some((json!(Case::Field { buf: buf.clone(), size }), v));
-                        }
-                    }
-                }
-            }
-        }
-        if block == 13 {
-            rep.sample = Some(json!({"buf": hex_short(&bufs[bufs.len() / 2]), "sizes": "0..=7"}));
-        }
-        rep
-    });
+    run.enumerate("small-alphabet-exhaustive", 65, true, alphabet_block);
     run.random("random", run.cases(2_000_000, 30_000_000), 0.3, strategy, check);
 }
 
-pub fn replay(_section: &str, case: &Json) -> Option<CheckResult> {
+pub fn replay(section: &str, case: &Json) -> Option<CheckResult> {
+    if section == "small-alphabet-exhaustive" {
+        if let Some(b) = case["enum_block"].as_u64() {
+            return Some(match alphabet_block(b).violation {
+                Some((_, v)) => Err(v),
+                None => Ok(Pass::new(true).class("enumeration-block")),
+            });
+        }
+    }
     case_from::<Case>(case).map(|c| check(&c))
 }
